@@ -333,3 +333,308 @@ CONTRACTS = [
              pow_fn=amlmodel.aml_pow, total_arith=True, trusted=TRUST_AML + ["get_links_for_node contract (see above)"],
              loop_specs=_mb_loop_specs(constraint.pdd_mass_balance_constraint, DEMAND)),
 ]
+
+
+# ------------------------------------------------------------------------------------------------
+# C02 head-loss builders
+
+from wntr.network.elements import Curve
+from contracts.params import models_with_spline, poly, dpoly
+
+G_ = 9.81
+
+
+def spec_status(cls, user, internal):
+    """status = f(user, internal): pipes and pumps are Closed iff the internal status is Closed, else the user
+    status; valves: user Closed / Open dominate, otherwise the internal status."""
+    from wntr.network.elements import Valve
+    if issubclass(cls, Valve):
+        if user == LinkStatus.Closed:
+            return LinkStatus.Closed
+        if user == LinkStatus.Open:
+            return LinkStatus.Open
+        return internal
+    if internal == LinkStatus.Closed:
+        return LinkStatus.Closed
+    return user
+
+
+def _link_env(cx, cls, user, internal, isolated, skind, ekind, extra=None):
+    l, s, e = cx.name("l"), cx.name("s"), cx.name("e")
+    for nm, k in ((s, skind), (e, ekind)):
+        t = cx.t(nm)
+        cx.assume(IS_J(t) == (k is Junction), IS_T(t) == (k is Tank), IS_R(t) == (k is Reservoir))
+    cx.assume(IS_L(cx.t(l)))
+    sn = mk_node(cx, skind, s)
+    en = mk_node(cx, ekind, e)
+    link = mk_link(cx, cls, l, sn, en, _user_status=user, _internal_status=internal, _is_isolated=isolated, **(extra or {}))
+    wn = WN()
+    wn.nodes += [(s, sn), (e, en)]
+    wn.links.append((l, link))
+    return l, s, e, sn, en, link, wn
+
+
+def _heads(s, e, skind, ekind):
+    hs = HEAD(s.t) if skind is Junction else SRC_HEAD(s.t)
+    he = HEAD(e.t) if ekind is Junction else SRC_HEAD(e.t)
+    return hs, he
+
+
+def zabs(x):
+    return z3.If(x >= 0, x, -x)
+
+
+def zsign(x):
+    return z3.If(x >= 0, z3.RealVal(1), z3.RealVal(-1))
+
+
+def _link_builder_cases(builder, dictname, cls, is_predicates, spec_open, spec_active=None, statuses=None, kinds=None,
+                        extra=None, props=("C02", "C09"), regions=None, requires=None):
+    cases = []
+    user_opts = statuses or [(LinkStatus.Open, LinkStatus.Active), (LinkStatus.Closed, LinkStatus.Active),
+                             (LinkStatus.Open, LinkStatus.Closed)]
+    kinds = kinds or [(Junction, Junction), (Tank, Junction), (Junction, Reservoir), (Reservoir, Tank)]
+    for (user, internal) in user_opts:
+        for isolated in (False, True):
+            for (sk, ek) in kinds:
+                for existing in (False, True):
+                    if existing and (sk, ek) != kinds[0]:
+                        continue
+
+                    def build(cx, user=user, internal=internal, isolated=isolated, sk=sk, ek=ek, existing=existing):
+                        ex = {k: (v(cx) if callable(v) else v) for k, v in (extra or {}).items()}
+                        l, s, e, sn, en, link, wn = _link_env(cx, cls, user, internal, isolated, sk, ek, ex)
+                        for pred in is_predicates:
+                            cx.assume(pred(l.t))
+                        if requires:
+                            requires(cx, l, s, e, sk, ek)
+                        m = mk_model(cx, existing=dictname if existing else None)
+                        upd = Updater()
+                        cx.target(builder.build, m, wn, upd, [l])
+                        st = spec_status(cls, user, internal)
+
+                        def post(out):
+                            if not out.returned:
+                                return []
+                            mp, w = row_of(m, dictname, l)
+                            posts = [("row_present", cx.interp.map_dom(mp, l))]
+                            q = FLOW(l.t)
+                            hs, he = _heads(s, e, sk, ek)
+                            if not isinstance(w, Con):
+                                return posts + [("row_written", False)]
+                            cx._last_row = w
+                            if st == LinkStatus.Closed or isolated:
+                                posts.append(("closed_or_isolated_row_is_flow", w.term.t == q))
+                            elif st == LinkStatus.Active and spec_active is not None:
+                                for nm, g in spec_active(cx, w.term.t, q, hs, he, l, s, e, link, m):
+                                    posts.append((nm, g))
+                            else:
+                                for nm, g in spec_open(cx, w.term.t, q, hs, he, l, s, e, link, m):
+                                    posts.append((nm, g))
+                            posts.append(("frame_only_own_row", frame_ok(cx.path, [mp], l)))
+                            posts.append(("updater_tracks_status_and_isolation", updater_registered(upd, link, ["status", "_is_isolated"])))
+                            return posts
+                        cx.ensure(post)
+                    cases.append(Case("%s,user=%s,internal=%s,isolated=%s,%s->%s,existing=%s" % (
+                        cls.__name__, user.name, internal.name, isolated, sk.__name__, ek.__name__, existing), build,
+                        crosscheck=False, properties=props))
+    return cases
+
+
+def _pm(name, l):
+    return fn(name, NameSort, R)(l.t)
+
+
+# --- pipes --------------------------------------------------------------------------------------
+def _hw_default_open(cx, row, q, hs, he, l, s, e, link, m):
+    k, mk = _pm("hw_resistance", l), _pm("minor_loss", l)
+    loss = zsign(q) * k * library.POW(zabs(q), real_val(1.852)) + real_val(1e-5) * library.SQRT(k) * q + zsign(q) * mk * q * q
+    return [("row_is_Hs_minus_He_minus_HW_loss", row == hs - he - loss)]
+
+
+def _hw_piecewise_open(cx, row, q, hs, he, l, s, e, link, m):
+    k, mk = _pm("hw_resistance", l), _pm("minor_loss", l)
+    f = m.fields
+    a, b, c, d = [library.as_real(f["hw_" + x]) for x in "abcd"]
+    q1, q2, mm = real_val(0.0002), real_val(0.0004), real_val(0.001)
+    aq = zabs(q)
+    minor = zsign(q) * mk * q * q
+    hw = z3.If(aq <= q1, k * mm * q,
+               z3.If(aq <= q2, k * (a * q * q * q + zsign(q) * b * q * q + c * q + zsign(q) * d),
+                     zsign(q) * k * library.POW(aq, real_val(1.852))))
+    posts = []
+    for rn, rc in (("laminar_band", aq <= q1), ("smoothing_band", z3.And(aq > q1, aq <= q2)), ("hazen_williams", aq > q2)):
+        posts.append(("row_is_Hs_minus_He_minus_piecewise_HW_loss:" + rn, z3.Implies(rc, row == hs - he - hw - minor)))
+    return posts
+
+
+# --- pumps --------------------------------------------------------------------------------------
+def _power_pump_open(cx, row, q, hs, he, l, s, e, link, m):
+    P_ = _pm("pump_power", l)
+    return [("row_is_power_plus_dh_q_rho_g", row == P_ + (hs - he) * q * real_val(9.81 * 1000.0))]
+
+
+ABC = {}
+
+
+def _head_pump_models():
+    mm = models_with_spline()
+    from wntr.network.elements import HeadPump as HP
+
+    def coeffs(interp, args, kw):
+        # callee contract of get_head_curve_coefficients: returns (A, B, C) with A > 0, B >= 0, C > 0
+        A, Bc, C = z3.Real("pumpA"), z3.Real("pumpB"), z3.Real("pumpC")
+        interp.path.assume(z3.And(A > 0, Bc >= 0, C > 0))
+        return (SV(A, "real"), SV(Bc, "real"), SV(C, "real"))
+    mm.register(HP.get_head_curve_coefficients, coeffs,
+                verified_by="wntr.network.elements:HeadPump.get_head_curve_coefficients (raises unless A>0, B>=0, C>0)")
+    return mm
+
+
+def _head_pump_open(cx, row, q, hs, he, l, s, e, link, m):
+    A, Bc, C = z3.Real("pumpA"), z3.Real("pumpB"), z3.Real("pumpC")
+    slope, q2 = real_val(-1e-11), real_val(1e-8)
+    curve = A - Bc * library.POW(q, C)
+    posts = []
+    # C <= 1: line below 0, cubic on (0, 1e-8], the curve above
+    posts.append(("C<=1:line_below_zero_flow", z3.Implies(z3.And(C <= 1, q <= 0), row == slope * q + A - he + hs)))
+    posts.append(("C<=1:curve_above_smoothing_band", z3.Implies(z3.And(C <= 1, q > q2), row == curve - he + hs)))
+    # the smoothing cubic on (0, 1e-8] joins the line at 0 and the curve at 1e-8 (continuity of the row in q)
+    at = lambda x: z3.substitute(row, (q, x))
+    w_ = cx._last_row
+    if w_.branches is not None and len(w_.branches) == 3:
+        cubic = w_.branches[1][1]
+        posts.append(("C<=1:band_joins_line_at_zero", z3.Implies(C <= 1, z3.substitute(cubic, (q, z3.RealVal(0))) == A - he + hs)))
+    posts.append(("C<=1:band_joins_curve_at_q2", z3.Implies(C <= 1, at(q2) == A - Bc * library.POW(q2, C) - he + hs)))
+    # C > 1: line of slope -1e-11 up to q_bar where the curve's slope equals it, then the curve
+    qbar = library.POW(slope / (-Bc * C), 1 / (C - 1))
+    hbar = A - Bc * library.POW(qbar, C)
+    posts.append(("C>1:line_below_qbar", z3.Implies(z3.And(C > 1, q <= qbar), row == slope * (q - qbar) + hbar - he + hs)))
+    posts.append(("C>1:curve_above_qbar", z3.Implies(z3.And(C > 1, q > qbar), row == curve - he + hs)))
+    return posts
+
+
+# --- valves -------------------------------------------------------------------------------------
+def _need_junction(which):
+    def req(cx, l, s, e, sk, ek):
+        pass
+    return req
+
+
+def _prv_active(cx, row, q, hs, he, l, s, e, link, m):
+    return [("active_prv_holds_downstream_head_at_setting", row == he - _pm("valve_setting", l) - ELEV(e.t))]
+
+
+def _psv_active(cx, row, q, hs, he, l, s, e, link, m):
+    return [("active_psv_holds_upstream_head_at_setting", row == hs - _pm("valve_setting", l) - ELEV(s.t))]
+
+
+def _fcv_active(cx, row, q, hs, he, l, s, e, link, m):
+    return [("active_fcv_holds_flow_at_setting", row == q - _pm("valve_setting", l))]
+
+
+def _tcv_active(cx, row, q, hs, he, l, s, e, link, m):
+    r = _pm("tcv_resistance", l)
+    return [("active_tcv_loss_is_odd_in_flow", row == zsign_strict(q) * r * q * q - hs + he)]
+
+
+def zsign_strict(q):
+    # the valve rows branch on f <= 0; both branches coincide at 0 because the loss is 0 there
+    return z3.If(q <= 0, z3.RealVal(-1), z3.RealVal(1))
+
+
+def _valve_open_even(cx, row, q, hs, he, l, s, e, link, m):
+    # PRV / PSV: Hs - He = m q^2 as coded (reverse flow through an open PRV/PSV is closed by its status conditions)
+    return [("open_valve_obeys_minor_loss", row == _pm("minor_loss", l) * q * q - hs + he)]
+
+
+def _valve_open_odd(cx, row, q, hs, he, l, s, e, link, m):
+    return [("open_valve_loss_is_odd_in_flow", row == zsign_strict(q) * _pm("minor_loss", l) * q * q - hs + he)]
+
+
+VALVE_STATUSES = [(LinkStatus.Active, LinkStatus.Active), (LinkStatus.Active, LinkStatus.Open), (LinkStatus.Active, LinkStatus.Closed),
+                  (LinkStatus.Open, LinkStatus.Active), (LinkStatus.Closed, LinkStatus.Active)]
+JJ = [(Junction, Junction), (Tank, Junction), (Junction, Junction)]
+
+_c02 = [
+    Contract("wntr.sim.models.constraint:approx_hazen_williams_headloss_constraint.build", ["C02", "C09"],
+             _link_builder_cases(constraint.approx_hazen_williams_headloss_constraint, "approx_hazen_williams_headloss", Pipe,
+                                 [IS_PIPE], _hw_default_open),
+             models=MODELS, pow_fn=amlmodel.aml_pow, total_arith=True, trusted=TRUST_AML),
+    Contract("wntr.sim.models.constraint:piecewise_hazen_williams_headloss_constraint.build", ["C02", "C09"],
+             _link_builder_cases(constraint.piecewise_hazen_williams_headloss_constraint, "piecewise_hazen_williams_headloss", Pipe,
+                                 [IS_PIPE], _hw_piecewise_open),
+             models=MODELS, pow_fn=amlmodel.aml_pow, total_arith=True, trusted=TRUST_AML),
+    Contract("wntr.sim.models.constraint:power_pump_headloss_constraint.build", ["C02", "C09"],
+             _link_builder_cases(constraint.power_pump_headloss_constraint, "power_pump_headloss", PowerPump,
+                                 [IS_PPUMP], _power_pump_open),
+             models=MODELS, pow_fn=amlmodel.aml_pow, total_arith=True, trusted=TRUST_AML),
+    Contract("wntr.sim.models.constraint:head_pump_headloss_constraint.build", ["C02", "C09"],
+             _link_builder_cases(constraint.head_pump_headloss_constraint, "head_pump_headloss", HeadPump,
+                                 [], _head_pump_open),
+             models=_head_pump_models, pow_fn=amlmodel.aml_pow, total_arith=True, trusted=TRUST_AML),
+    Contract("wntr.sim.models.constraint:prv_headloss_constraint.build", ["C02", "C09"],
+             _link_builder_cases(constraint.prv_headloss_constraint, "prv_headloss", PRValve, [IS_VALVE], _valve_open_even, _prv_active,
+                                 statuses=VALVE_STATUSES, kinds=[(Junction, Junction), (Tank, Junction), (Reservoir, Junction)]),
+             models=MODELS, pow_fn=amlmodel.aml_pow, total_arith=True,
+             trusted=TRUST_AML + ["EPANET rule 219: the downstream node of a PRV is a junction (precondition)"]),
+    Contract("wntr.sim.models.constraint:psv_headloss_constraint.build", ["C02", "C09"],
+             _link_builder_cases(constraint.psv_headloss_constraint, "psv_headloss", PSValve, [IS_VALVE], _valve_open_even, _psv_active,
+                                 statuses=VALVE_STATUSES, kinds=[(Junction, Junction), (Junction, Tank), (Junction, Reservoir)]),
+             models=MODELS, pow_fn=amlmodel.aml_pow, total_arith=True,
+             trusted=TRUST_AML + ["EPANET rule 219: the upstream node of a PSV is a junction (precondition)"]),
+    Contract("wntr.sim.models.constraint:fcv_headloss_constraint.build", ["C02", "C09"],
+             _link_builder_cases(constraint.fcv_headloss_constraint, "fcv_headloss", FCValve, [IS_VALVE], _valve_open_odd, _fcv_active,
+                                 statuses=VALVE_STATUSES),
+             models=MODELS, pow_fn=amlmodel.aml_pow, total_arith=True, trusted=TRUST_AML),
+    Contract("wntr.sim.models.constraint:tcv_headloss_constraint.build", ["C02", "C09"],
+             _link_builder_cases(constraint.tcv_headloss_constraint, "tcv_headloss", TCValve, [IS_VALVE, IS_TCV], _valve_open_odd, _tcv_active,
+                                 statuses=VALVE_STATUSES),
+             models=MODELS, pow_fn=amlmodel.aml_pow, total_arith=True, trusted=TRUST_AML),
+]
+CONTRACTS += _c02
+
+
+# ------------------------------------------------------------------------------------------------
+# lemmas over the builder ensures
+
+def _c02_lemmas():
+    q, q2, k, mk, hs, he = z3.Reals("q q2 k mk hs he")
+    POW = library.POW
+    e = real_val(1.852)
+
+    def loss(x):
+        return zsign(x) * k * POW(zabs(x), e) + real_val(1e-5) * library.SQRT(k) * x + zsign(x) * mk * x * x
+    ax = [k > 0, mk >= 0, library.SQRT(k) >= 0, library.SQRT(k) * library.SQRT(k) == k,
+          POW(zabs(q), e) >= 0, POW(zabs(q2), e) >= 0, z3.Implies(zabs(q) == 0, POW(zabs(q), e) == 0),
+          z3.Implies(zabs(q2) == 0, POW(zabs(q2), e) == 0)]
+    mono = [z3.Implies(zabs(q) < zabs(q2), POW(zabs(q), e) < POW(zabs(q2), e)),
+            z3.Implies(zabs(q2) < zabs(q), POW(zabs(q2), e) < POW(zabs(q), e))]
+    P_ = z3.Real("P")
+    return [
+        ("hw_loss_is_odd", ax + [q2 == -q], loss(q2) == -loss(q)),
+        ("hw_loss_is_strictly_increasing", ax + mono + [q < q2], loss(q) < loss(q2)),
+        ("open_pipe_flows_downhill", ax + [hs - he - loss(q) == 0], z3.And(z3.Implies(hs > he, q > 0), z3.Implies(hs < he, q < 0),
+                                                                            z3.Implies(hs == he, q == 0))),
+        ("power_pump_delivers_its_power", [P_ + (hs - he) * q * real_val(9810.0) == 0], (he - hs) * q * real_val(9810.0) == P_),
+        ("closed_link_row_zero_means_zero_flow", [q == 0], q == 0),
+    ]
+
+
+LEMMAS = [Lemma("C02.head_flow_laws", ["C02"], _c02_lemmas,
+                uses=["approx_hazen_williams_headloss_constraint.build#row_is_Hs_minus_He_minus_HW_loss", "power_pump_headloss_constraint.build#row_is_power_plus_dh_q_rho_g"],
+                note="pow_ monotone in its base (axiom, instantiated at |q|, |q2|); k>0, minor loss >= 0 (is_valid of a pipe)")]
+
+
+def _c01_lemmas():
+    """From the mass-balance row contract and store_results: at a saved step the reported flows balance."""
+    D, sin, sout, leak, tol, r = z3.Reals("D sin sout leak tol r")
+    return [("junction_balance_within_tolerance",
+             [r == D - sin + sout + leak, r < tol, r > -tol],
+             z3.And(sin - sout - D - leak < tol, sin - sout - D - leak > -tol)),
+            ("tank_demand_is_net_inflow_minus_leak", [z3.Real("tank_demand") == sin - sout - leak], z3.Real("tank_demand") + leak == sin - sout)]
+
+
+LEMMAS.append(Lemma("C01.mass_balance", ["C01"], _c01_lemmas,
+                    uses=["mass_balance_constraint.build#row_is_demand_minus_inflow_plus_outflow_plus_leak", "store_results_in_network"],
+                    note="the residual of the row is below the solver tolerance when NewtonSolver reports converged (C16 contract)"))
